@@ -259,14 +259,18 @@ def blocks_to_bytes(
         for instruction_index, instruction in enumerate(block):
             offset = len(bytes_)
 
-            line_mapping.offset_to_line[offset] = instruction.line_number
+            arg_value = args[block_index, instruction_index]
+            n_args = instruction._n_args_override or _instrsize(arg_value)
+
+            # Every code unit of the instruction, including its extended args,
+            # is on the instruction's line
+            for i in range(n_args):
+                line_mapping.offset_to_line[offset + (i * 2)] = instruction.line_number
             if instruction._line_offsets_override:
                 line_mapping.offset_to_additional_line_offsets[offset] = list(
                     instruction._line_offsets_override
                 )
 
-            arg_value = args[block_index, instruction_index]
-            n_args = instruction._n_args_override or _instrsize(arg_value)
             # Duplicate semantics of write_op_arg
             # to produce the the right number of extended arguments
             # https://github.com/python/cpython/blob/b2e5794870eb4728ddfaafc0f79a40299576434f/Python/wordcode_helpers.h#L22-L44
